@@ -36,7 +36,7 @@ def run(ctx):
     from .. import storm
     from ..runner import Finding
     binary, hooks = ctx.binary()
-    jobs = [(binary, hooks, s, 0, None, None, 6 if ctx.quick else 40, ctx.quick, ["flood", "flood", "fifo"])
+    jobs = [(binary, hooks, s, 0, None, None, 10 if ctx.quick else 60, ctx.quick, ["flood", "flood", "fifo", "quitflood", "quitflood"])
             for s in ctx.seeds(8, "flood")]
     with multiprocessing.Pool(8) as pool:
         fouts = pool.map(storm.worker, jobs)
